@@ -261,8 +261,8 @@ PROPS = {
         "trusted_base": COMMON_TB + ["Expand/Expand.v: hand model of expander.go / schema_loader.go / resolver.go on JSON trees (base-path threading, parent stack, memo of circular refs, resolver roots, deref chains, rebasing, SkipSchemas/ContinueOnError/AbsoluteCircularRef, cache and loader log); abstractions: sub-schemas visited in JSON member order, `#/` refs into the live root read the original root (outputs on cyclic graphs compared through unfoldings)",
                                      "correspondence scope: graphs without multi-hop parameter/response/path-item chains, imported-circular schemas, schema ids and prefix-sibling documents (the areas of the open findings F7-F10) are compared; the others are judged by the oracle only",
                                      "Codec/Codec.v (typed decoding of every resolved target) and Base/Url.v (normalizeURI, rebase)"],
-        "level_text": 'Coq theorems (Props/C03.v): a schema reference is kept exactly when its canonical form is on the parent stack or in the memo; the memo only receives references that were on the stack (nodes of cycles); how a kept reference is written (only $ref changes; absolute URL with the option); a non-circular reference is always replaced by the expansion of its target. The graph-level statements (kept refs lie on cycles of the INPUT graph; acyclic => ref-free and deterministic) are checked by the oracle on the implementation.',
-        "level_note": 'Partial: the per-reference theorems are proved of the model; the global cut-point/acyclic statements need the reachability semantics (future work) and rest on the oracle (exhaustive over small graphs in the thorough tier).',
+        "level_text": 'Coq theorems (Props/C03.v over Expand/ExpandCycle.v), unbounded: GRAPH LEVEL — for every store, state, stack, fuel and AbsoluteCircularRef setting (strict, full mode), every `$ref` a successful schema expansion leaves behind, at any depth, is the rendering of a canonical reference that lies on a cycle of the input reference graph (invariants: every reference on the parent stack has a holder whose target reaches the current position; the memo only holds references on cycles); an acyclic graph therefore ends `$ref`-free; acyclicity is decided by a rank every edge decreases; graph hypotheses decided by the verified checker and discharged by computation on a cyclic and an acyclic two-document graph. PER REFERENCE — kept exactly when on the stack or in the memo; the memo only receives stack members; rendering of a kept reference; a non-circular reference is always followed.',
+        "level_note": 'Partial: the graph-level theorems cover the schema walk (definitions and every schema below parameters/responses) under the well-formedness hypotheses of C02 (no ids, no prefix-sibling documents, strict mode); "resolves from the root location" for the rendered text is the per-graph URL check of C02 (G_render), not proved for all URLs; parameter/response/path-item chains and determinism of reruns rest on the oracle.',
         "technique": "Coq proof about a hand-written executable model of the expander + differential run (exact on acyclic graphs, unfoldings on cyclic ones) + property oracle on the implementation",
         "assumptions": ["loader is a function of the URL during one call", "documents are in normal form (reference objects carry only $ref)"],
     },
